@@ -41,6 +41,9 @@ MCInit == \/ \E s \in Strs : InitWith([op |-> "pct", in |-> s])
                         "http://verif.test/pkg.Other"} :
                 InitWith([op |-> "spec_reuse", proto |-> p, used |-> u, base |-> b])
           \/ \E p \in {"connect", "grpc", "grpcweb"} : InitWith([op |-> "client_init_fail", proto |-> p])
+          \* C08 / C01: a unary Request sent twice, the message once above and once below the compression threshold
+          \/ \E p \in {"connect", "grpc", "grpcweb"}, u \in {"large-first", "small-first"} :
+                InitWith([op |-> "enc_reuse", proto |-> p, used |-> u])
           \/ \E c \in Codes : InitWith([op |-> "code", c |-> c])
           \/ \E d \in Durs : InitWith([op |-> "timeout", d |-> d])
 MCSpec == MCInit /\ [][Next]_vars
